@@ -860,10 +860,13 @@ def run(ctx, res):
             infra += 1
             continue
         replay = {"plan": r["plan"], "typed": r["typed"], "model_actions": r["acts"]}
-        fails = [(f.split(":")[0], f, o["do"]) for o in r["oracle_fail"] for f in o["fails"]]
+        fails = [(f.split(":")[0], f, o["step"]) for o in r["oracle_fail"] for f in o["fails"]]
         attributed = [(attribute(code, r["classes"]), msg, do) for code, msg, do in fails]
         unattributed = [(msg, do) for c, msg, do in attributed if c is None or c not in known]
-        shown = "; ".join(t if t else "<empty line>" for t in r["typed"][:10])
+
+        def upto(step):
+            pre = [t if t else "<empty line>" for t in r["typed"][:step]]
+            return ("... ; " if len(pre) > 12 else "") + "; ".join(pre[-12:])
         if r["mismatch"]:
             if not unattributed and r["classes"]:
                 accepted.append({"classes": r["classes"], "typed": r["typed"], "note": "implementation differs from the faithful "
@@ -877,7 +880,7 @@ def run(ctx, res):
             continue
         for c, msg, do in attributed:
             if c is not None and c in known:
-                res.known(c, 'class=%s input="%s" what=%s' % (c, shown, msg))
+                res.known(c, 'class=%s input="%s" what=%s' % (c, upto(do), msg))
         if unattributed:
             res.violate(kind="oracle", failing_input=True, input=r["typed"], expected="property oracle O1..O6 on the observation",
                         observed=unattributed[:3], replay=replay, session_classes=r["classes"],
